@@ -99,6 +99,11 @@ CLAIMS = {
          "map iteration order; every module type is registered and imported; option handlers never replace a configuration sub-object another option may have filled; merged global blocks get fresh server keys. Semantic equality of the adapted JSON "
          "for all generated Caddyfiles is not decided.",
          "DESIGN.md section 4 C15"),
+ "C04": ("bounds prover over go/ssa (difference constraints from type widths, definitions, library contracts, loop induction, dominating branches, value numbering) with a reviewed table for the residue; bounded path evaluation of the postgres parser; key/type agreement census; reachability of explicit panics",
+         "Decided for all ~250 per-connection functions: each of ~360 index/slice/make/division sites is proven in range (about 92%) or listed with a reason in specs/audited_bounds.json (28 sites, each a stated blind spot); remote-controlled "
+         "allocations are bounded by 65 KiB; unchecked type assertions on context/variable-table values agree with all producers of their key; no explicit panic is reachable; selection policies never dereference an empty slot; the postgres "
+         "parser is evaluated for every declared length 0..16 and the limits with symbolic content without any out-of-range access. Third-party parsers and general nil dereferences are not decided.",
+         "DESIGN.md section 4 C04"),
 }
 
 checks = []
